@@ -1,7 +1,7 @@
 (* Proofs about Model/Krylov.v : buffer safety / termination of the Lanczos loop skeleton by invariant,
    and the algebraic exactness of the Krylov propagator on an invariant subspace. *)
 From Coq Require Import List Arith Bool Lia Ring.
-From RV Require Import Base.CRing Base.BigSum Model.Krylov Gen.KrylovSites.
+From RV Require Import Base.CRing Base.BigSum Model.Krylov Gen.KrylovSites Gen.KrylovNorm.
 Import ListNotations.
 
 (* ================================================================== Part 1: control skeleton *)
@@ -642,3 +642,69 @@ Module KEx.
     split; [unfold hermitian; two|]. split; [unfold orthonormal; two|]. split; [two|]. split; reflexivity.
   Qed.
 End KEx.
+
+(* ================================================================== Part 5: normalise, run, scale: homogeneity *)
+Lemma norm_shape_ok : src_norm = ref_norm.
+Proof. reflexivity. Qed.
+
+Section WrapperProofs.
+  Variable R : CRing.
+  Add Ring RRw : (rth R).
+  Infix "*" := (rmul R).
+  Variable nrmf : vec R -> R.
+  Variable inv : R -> R.
+  Variable close1 : R -> bool.
+  Variable core : vec R -> vec R.
+  (* the Lanczos run only looks at the entries of its first basis vector *)
+  Hypothesis core_ext : forall x y, (forall i, x i = y i) -> forall i, core x i = core y i.
+
+  (* unconditional normalisation: the returned vector is homogeneous of degree 1 in the start vector, for every factor c
+     by which the norm scales (c > 0 for a norm) and which has an inverse *)
+  Theorem wrapper_homogeneous (c : R) (v : vec R) :
+    nrmf (fun i => c * v i) = c * nrmf v ->
+    c * inv c = r1 R -> inv (c * nrmf v) = inv c * inv (nrmf v) ->
+    forall i, expm_wrapper R nrmf inv close1 core ref_norm (fun l => c * v l) i
+              = c * expm_wrapper R nrmf inv close1 core ref_norm v i.
+  Proof.
+    intros Hn Hc Hi i. unfold expm_wrapper, start_of. cbn [ref_norm ns_unconditional orb]. rewrite Hn.
+    rewrite (core_ext (fun l => c * v l * inv (c * nrmf v)) (fun l => v l * inv (nrmf v))).
+    - ring.
+    - intros l. rewrite Hi.
+      transitivity (v l * inv (nrmf v) * (c * inv c)); [ring | rewrite Hc; ring].
+  Qed.
+End WrapperProofs.
+
+Theorem wrapper_homogeneous_src (R : CRing) (nrmf : vec R -> R) (inv : R -> R) (close1 : R -> bool) (core : vec R -> vec R) :
+  (forall x y, (forall i, x i = y i) -> forall i, core x i = core y i) ->
+  forall (c : R) (v : vec R),
+  nrmf (fun i => rmul R c (v i)) = rmul R c (nrmf v) ->
+  rmul R c (inv c) = r1 R -> inv (rmul R c (nrmf v)) = rmul R (inv c) (inv (nrmf v)) ->
+  forall i, expm_wrapper R nrmf inv close1 core src_norm (fun l => rmul R c (v l)) i
+            = rmul R c (expm_wrapper R nrmf inv close1 core src_norm v i).
+Proof. rewrite norm_shape_ok. exact (wrapper_homogeneous R nrmf inv close1 core). Qed.
+
+(* the data model of Part 4: two start vectors nrm0 * v0 and (c * nrm0) * v0 sharing the unit first basis vector v0 take the
+   same exit after the same number of iterations, and the returned vectors differ by the factor c *)
+Theorem krylov_return_homogeneous (R : CRing) N (A : matx R) inv nrm rpart (isz : R -> bool) bs conv v0 (nrm0 c : R) expT e it r :
+  krylov_return R N A inv nrm rpart isz bs conv v0 nrm0 expT = Some (e, it, r) ->
+  exists r', krylov_return R N A inv nrm rpart isz bs conv v0 (rmul R c nrm0) expT = Some (e, it, r') /\
+             forall i, r' i = rmul R c (r i).
+Proof.
+  unfold krylov_return. destruct (fst (run N bs (fun j => isz (beta R N A inv nrm rpart v0 j)) conv)) as [[[e' it'] s]|]; [|discriminate].
+  intros H. injection H as <- <- <-. eexists. split; [reflexivity|].
+  intros i. unfold ret_vec. pose proof (rth R) as T. destruct T. rewrite Rmul_assoc. reflexivity.
+Qed.
+
+(* a guarded normalisation is NOT homogeneous: the field with three elements, norm := first entry, guard "n = 2",
+   core := identity; v = (2, 0), c = 2 *)
+Lemma guarded_normalisation_refuted :
+  let sh := {| ns_two_norm := true; ns_unconditional := false; ns_out_of_place := true; ns_first_row := true;
+               ns_scale_once := true; ns_atol_scaled := true |} in
+  let nrmf := fun w : vec KEx.F3 => w 0 in
+  let close1 := fun x : KEx.f3 => match x with KEx.a2 => true | _ => false end in
+  let v : vec KEx.F3 := fun i => match i with 0 => KEx.a2 | _ => KEx.a0 end in
+  let c := KEx.a2 in
+  nrmf (fun i => KEx.mul c (v i)) = KEx.mul c (nrmf v) /\ KEx.mul c (KEx.inv c) = KEx.a1 /\
+  expm_wrapper KEx.F3 nrmf KEx.inv close1 (fun x => x) sh (fun l => KEx.mul c (v l)) 0
+  <> KEx.mul c (expm_wrapper KEx.F3 nrmf KEx.inv close1 (fun x => x) sh v 0).
+Proof. vm_compute. repeat split; discriminate. Qed.
